@@ -8,6 +8,7 @@
 //!   replay pytwin <script.json>                         Rust side of the Python/Rust differential twin (C18)
 //!   replay truncate [--seed s]                          bounded stand-in of C07: every byte prefix of written snapshots is rejected
 mod agentrun;
+mod derivetwin;
 mod detrun;
 mod envrun;
 mod marketrun;
@@ -621,13 +622,34 @@ impl Gen {
 
     fn random_history(&mut self, len: usize, tick: u32, levels: usize) -> History {
         let mut ops = vec![];
-        let mut t = 0u64;
+        // the clock is a 64-bit count: some histories run across a multiple of 2^32 (or start far out), where a narrower time field would wrap
+        let mut t = match self.rng.gen_range(0..8) {
+            0 => (1u64 << 32) - self.rng.gen_range(1..20),
+            1 => (1u64 << 33) - self.rng.gen_range(1..10),
+            2 => (u64::MAX >> 1) - 1000,
+            _ => 0u64,
+        };
+        if t > 0 {
+            ops.push(Op::SetTime { t });
+        }
         let mut n = 0usize;
         // one history in four lives next to price 0 (0 is a multiple of every tick size: a legal price)
         let base = if self.rng.gen_range(0..4) == 0 { 0u32 } else { 20u32 };
+        let mut last_q: Option<(usize, u32)> = None;      // (id, price) of the order queued by the previous operation
+        let mut created = 0usize;                          // exact number of orders that exist (what fix_ids computes), so that `last_q` names the right order
         for _ in 0..len {
+            if !self.ties && last_q.is_some() && self.rng.gen_range(0..8) == 0 {
+                // modify the order that was queued an instant ago, without a clock advance in between (its own key is the only one with this timestamp)
+                let (id, lp) = last_q.unwrap();
+                let p = match self.rng.gen_range(0..3) { 0 => None, 1 => Some(lp), _ => Some((base + self.rng.gen_range(0..6)) * tick) };
+                let v = if self.rng.gen_bool(0.6) { Some(self.rng.gen_range(1..12)) } else { None };
+                ops.push(if self.rng.gen_bool(0.5) { Op::Modify { id, price: p, vol: v } } else { Op::EventModify { id, price: p, vol: v } });
+                last_q = Some((id, p.unwrap_or(lp)));
+                continue;
+            }
+            last_q = None;
             if !self.ties || self.rng.gen_bool(0.4) {
-                t += self.rng.gen_range(1..3);
+                t += if self.rng.gen_range(0..50) == 0 { (1u64 << 32) - self.rng.gen_range(0..3) } else { self.rng.gen_range(1..3) };
                 ops.push(Op::SetTime { t });
             }
             let r = self.rng.gen_range(0..100);
@@ -636,11 +658,20 @@ impl Gen {
             let vol = self.rng.gen_range(1..8);
             let op = if r < 40 || n == 0 {
                 n += 1;
-                Op::CreatePlace { side, vol, trader: self.rng.gen_range(0..3), price: if self.rng.gen_bool(0.8) { Some(price) } else { None } }
+                let lim = self.rng.gen_bool(0.8);
+                created += 1;
+                if lim {
+                    last_q = Some((created - 1, price));
+                }
+                Op::CreatePlace { side, vol, trader: self.rng.gen_range(0..3), price: if lim { Some(price) } else { None } }
             } else if r < 45 {
                 n += 1;
+                created += 1;
                 Op::Create { side, vol, trader: 0, price: if self.rng.gen_bool(0.7) { Some(price) } else { None } }
             } else if r < 50 {
+                if (price + 1) % tick == 0 {
+                    created += 1;
+                }
                 Op::Create { side, vol, trader: 0, price: Some(price + 1) }
             } else if r < 55 {
                 Op::Place { id: self.rng.gen_range(0..n) }
@@ -718,6 +749,11 @@ fn shrink(mut h: History, prop: &str) -> History {
         changed = false;
         let mut i = 0;
         while i < h.ops.len() {
+            if matches!(h.ops[i], Op::SetTime { .. }) && prop != "C05" {
+                // a clock advance is never removed: that would manufacture equal timestamps (the domain of the recorded C05 findings)
+                i += 1;
+                continue;
+            }
             let mut h2 = h.clone();
             h2.ops.remove(i);
             h2.ops = fix_ids_keep(h2.ops);
@@ -770,7 +806,23 @@ fn search(prop: &str, depth: usize, seed: u64, nrandom: usize, len: usize, ties:
                     _ => {}
                 }
             }
+            // the order queued by the operation just before (if any): modifying THAT order in the same instant re-queues it under its own key - no other
+            // order shares the timestamp, so this is inside the clock discipline (and outside the domain of the C05 findings)
+            let last_q: Option<usize> = match prefix.last() {
+                Some(Op::CreatePlace { price, .. }) if price.map_or(true, |p| p % tick == 0) && n > 0 => Some(n - 1),
+                Some(Op::Place { id }) | Some(Op::Modify { id, .. }) => Some(*id),
+                _ => None,
+            };
             for op in gen.alphabet(tick, n, t) {
+                if let Op::Modify { id, .. } = &op {
+                    if !ties && Some(*id) == last_q {
+                        let mut p0 = prefix.clone();
+                        p0.push(op.clone());
+                        if p0.len() <= depth * 2 {
+                            stack.push(p0);
+                        }
+                    }
+                }
                 // clock discipline: unless ties are asked for, every queueing operation is preceded by a clock advance
                 let mut p = prefix.clone();
                 let queues = matches!(op, Op::CreatePlace { .. } | Op::Place { .. } | Op::Modify { .. });
@@ -910,6 +962,10 @@ fn market_snapshot_check(seed: u64, rounds: usize) -> (usize, Vec<String>) {
             t += 1; m.set_time(t);
             let _ = m.create_and_place_order(0, Side::Ask, 5, 7, Some(10));
         }
+        if k % 3 == 1 {
+            // one book's own clock runs ahead of the others (reachable through get_order_book_mut): a snapshot restores every book's own time
+            m.get_order_book_mut(1).set_time(t + 100 + k as u64);
+        }
         let before = obs(&m);
         // through a string
         let js = serde_json::to_string(&m).unwrap();
@@ -1017,7 +1073,7 @@ fn main() {
                 }
             }
             if args.iter().any(|a| a == "--env") {
-                match envrun::search_env(&prop, seed, nrandom, budget, args.iter().any(|a| a == "--overrun")) {
+                match envrun::search_env(&prop, seed, nrandom, budget, args.iter().any(|a| a == "--overrun"), args.iter().any(|a| a == "--overrun-other")) {
                     Some((h, fails)) => {
                         let doc = serde_json::json!({"history": h, "failures": fails});
                         if let Some(out) = arg(&args, "--out") {
@@ -1067,6 +1123,12 @@ fn main() {
             let progress = arg(&args, "--progress").map_or(false, |s| s == "1");
             let (d, no, nt) = detrun::digest(config, seed, progress);
             println!("{} {} {}", d, no, nt);
+        }
+        "derive-twin" => {
+            let seed: u64 = arg(&args, "--seed").map_or(0, |s| s.parse().unwrap());
+            let (n, bad) = derivetwin::derive_twin(seed);
+            println!("{}", serde_json::json!({"shapes_executed": n, "bad": bad}));
+            std::process::exit(if bad.is_empty() { 0 } else { 1 });
         }
         "determinism" => {
             let seed: u64 = arg(&args, "--seed").map_or(0, |s| s.parse().unwrap());
